@@ -320,7 +320,6 @@ func c01r5(c *Ctx, r *Report) {
 	r.floor("non-constant results of IsEmpty", nRet, 1)
 }
 
-
 // c01r3: cache scope (shared with C08).
 func c01r3(c *Ctx, r *Report) {
 	l := c.L
